@@ -556,7 +556,7 @@ func Run(tier string) int {
 	res.Sample(map[string]any{"fn": "base=100 limit=100 elasticity=2 denom=8 mgp=0 g in {0,1,49,50,51,100,2^64-1}", "history": []string{"fixture=base1000-mgp900-lim100", "block(gw=100,gu=0)", "block(gw=0,gu=0)", "block(gw=100,gu=100)"}})
 	return engine.Finish(res, engine.Meta{
 		Property: Prop, Tier: tier, Level: "model_checking", Start: start,
-		Rule:   "fn: full cartesian grid of boundary values through the real CalculateBaseFee vs a math/big reference, monotone on adjacent g; endblock: full (gasWanted,gasUsed,multiplier) grid through the real EndBlock; history: all sequences <= depth of blocks with chosen gas figures through real EndBlock/BeginBlock on 3 parameter fixtures. Non-trivial = grid point off the g=T=unchanged axis / block with distinct (base, g)",
+		Rule:   "fn: full cartesian grid of boundary values through the real CalculateBaseFee vs a math/big reference, monotone on adjacent g; endblock: full (gasWanted,gasUsed,multiplier) grid through the real EndBlock; history: all sequences <= depth of blocks with chosen gas figures (incl. declared gas above the block gas limit) and a governance change raising the minimum gas price above the live base fee, through real EndBlock/BeginBlock on 4 parameter fixtures (one with a base fee beyond 2^63); real-tx: all sequences <= 3 (thorough 4) of blocks carrying real Cosmos / Ethereum transactions. Non-trivial = grid point off the g=T=unchanged axis / block with distinct (base, g)",
 		Bounds: map[string]any{"history_depth": map[string]int{"quick": 3, "thorough": 6}},
 		Assumptions: []string{
 			"monotonicity is required only where base >= floor(minGasPrice): below it the statement's own clauses are incompatible with monotonicity (recorded as an observation)",
